@@ -303,6 +303,7 @@ Proof.
   apply has_dup_false in Hdup.
   unfold table_fits in Hfit.
   destruct (place adds 0) as [placed size] eqn:Epl. cbn [snd] in Hfit.
+  destruct (65535 <? size + 4); [discriminate|].
   pose proof (place_fst_map adds 0) as Hmapf. rewrite Epl in Hmapf. cbn [fst] in Hmapf.
   destruct (place_ok adds 0 placed size Hw ltac:(lia) ltac:(lia) Epl) as (Hsorted & Hsz & Hsz0).
   assert (Hwp : Forall (fun ao => farg_wf (fst ao)) placed).
@@ -485,4 +486,12 @@ Proof.
     - rewrite (Hfield _ _ Hf). cbn [bind]. rewrite IH. reflexivity.
     - rewrite (Hfield _ _ Hf). cbn [bind]. rewrite IH. reflexivity. }
   rewrite Hdf. reflexivity.
+Qed.
+
+(* a table whose inline data does not fit the 16-bit size field of the vtable is refused, never emitted truncated *)
+Lemma build_table_fits st adds r : build_table st adds = Some r -> table_fits adds.
+Proof.
+  unfold build_table, table_fits. destruct (has_dup _); [discriminate|].
+  destruct (place adds 0) as [placed size]. cbn [snd].
+  destruct (65535 <? size + 4) eqn:E; [discriminate|]. intros _. apply Z.ltb_ge in E. exact E.
 Qed.
